@@ -301,3 +301,10 @@ class P(Prop):
         if case["kind"] == "secs":
             for d in (-86400, 86400, -1, 1):
                 yield {"kind": "secs", "start": max(0, case["start"] + d), "n": case["n"]}
+
+
+# ---- tie to the source by translation (tools/py2lean.py -> lean/TracklibVerif/Gen/ObsTime.lean, regenerated on every run)
+P.tie_modules = ["TracklibVerif.Tie.C03"]
+P.theorems = P.theorems + [
+    ("TracklibVerif.Tie.C03", "TV.Tie.C03.tie_isLeapYear", "the Lean translation of the CURRENT source of ObsTime.isLeapYear equals the model's isLeap on every year >= 0"),
+]
